@@ -762,6 +762,7 @@ GRAPHS = {
     "empty block chain": {"a": ([], ["b"]), "b": ([], ["c"]), "c": ([], ["d"]), "d": (["int 1", "return_"], [])},
     # one expression used in two arms at different depths: two blocks that compare equal are still two parents of the join
     "equal arms, one behind an empty block": {"c1": (["int 1"], ["c2", "s2"]), "c2": (["int 2"], ["s1", "o"]), "s1": (["int 9", "pop"], ["e1"]), "e1": ([], ["j"]), "o": (["int 8", "pop"], ["j"]), "s2": (["int 9", "pop"], ["j"]), "j": (["int 1", "return_"], [])},
+    "equal branch blocks, one arm behind an empty block": {"c1": (["int 1"], ["c2", "c3"]), "c2": (["int 2"], ["e1", "o"]), "e1": ([], ["j"]), "c3": (["int 2"], ["j", "o"]), "o": (["int 8", "pop"], ["j"]), "j": (["int 1", "return_"], [])},
     "equal arms, both behind empty blocks": {"c1": (["int 1"], ["s1", "s2"]), "s1": (["int 9", "pop"], ["e1"]), "e1": ([], ["j"]), "s2": (["int 9", "pop"], ["e2"]), "e2": ([], ["j"]), "j": (["int 1", "return_"], [])},
 }
 
